@@ -59,3 +59,15 @@ Proof.
     match goal with |- match ?X with _ => _ end = _ => replace X with (Some (Some v, mode_flag m)) end;
       [symmetry; exact Hv | symmetry; apply file_rows_lookup; assumption].
 Qed.
+
+(* a repeated import of a file that holds at least one dataset is never accepted a second time (so it can not duplicate):
+   the datasets of the file have datastore records after the first import, and an accepted import requires none *)
+Lemma import_twice_refused : forall m m' b t t', import_ m b t = (t', Ok) -> b_dsets b <> [] -> snd (import_ m' b t') <> Ok.
+Proof.
+  intros m m' b t t' H Hne. destruct (import_ m' b t') as [t'' o] eqn:E. simpl. intros Ho. subst o.
+  destruct (import_ok _ _ _ _ E) as (_ & _ & Hns). destruct (import_ok _ _ _ _ H) as (_ & Hst & _).
+  destruct (b_dsets b) as [|p l] eqn:Eb; [contradiction Hne; reflexivity|].
+  assert (Hin : In (d_id (fst p)) (bundle_ids b)) by (unfold bundle_ids; rewrite Eb; left; reflexivity).
+  specialize (Hns _ Hin). unfold is_stored in Hns. rewrite Hst, has_key_app in Hns. simpl in Hns.
+  unfold has_key in Hns at 2. simpl in Hns. rewrite N.eqb_refl in Hns. rewrite orb_true_r in Hns. discriminate.
+Qed.
